@@ -39,6 +39,35 @@ CHECKS: dict[str, tuple[str, str, str, str]] = {
         "trusted: ref_parse + validate_tree in pv/checks/c18.py (they cross-check each other on every case; disagreement = inconclusive)",
         "DESIGN.md 4/C18",
     ),
+    "C03": (
+        "reference-model monitor: real parses in 4 execution modes compared with an executable reference PEG semantics",
+        "Seeded random well-formed grammars over the core operators and the trivia-free slice of a construct x context matrix are "
+        "loaded by the real front end and run (interpreter, optimized interpreter, both generated modules) on ALL strings over the "
+        "grammar's alphabet up to a length bound plus derivation-guided longer inputs; every outcome and tree is compared with "
+        "pv/ref/refpeg.py (functional evaluator, immutable state). Held = no disagreement on the cases explored; not a proof.",
+        "trusted: pv/ref/refpeg.py as pest's semantics (bounded repetitions evaluated as pest's unrolled sequences); the reference "
+        "abstains where the statement is silent; grammars the front end rejects are counted as abstentions (C10's subject)",
+        "DESIGN.md 4/C03",
+    ),
+    "C04": (
+        "reference-model monitor: trivia placement, atomicity and pair visibility compared with the reference evaluator in 4 modes",
+        "As C03 with WHITESPACE/COMMENT (silent or not, single- and multi-element bodies, both/one/none) and _ @ $ ! rules nested "
+        "through rule calls; the full construct x context x modifier x trivia-configuration matrix is sampled (quick) or enumerated "
+        "(thorough). Trees are compared, so every trivia pair, every given-back trivia run and every hidden/visible inner pair is judged.",
+        "trusted: pv/ref/refpeg.py (skip between sequence elements and inside further iterations of e*, only when non-atomic; "
+        "@ hides pairs except under nested $/!); abstains when trivia or an iteration matches empty",
+        "DESIGN.md 4/C04",
+    ),
+    "C05": (
+        "reference-model monitor with immutable stack + online full-copy monitor (T1) on every checkpoint/restore of every parse",
+        "Random grammars and the stack slice of the construct x context matrix mix the seven stack operations with every "
+        "backtracking construct; outcomes and trees in 4 modes are compared with the reference evaluator whose stack is immutable "
+        "(undo is structural). In addition a monitored ParserState shadows every checkpoint with a full copy and checks every restore "
+        "and ok of every parse, and no exception other than PestParsingError may escape.",
+        "trusted: pv/ref/refpeg.py stack semantics (PEEK/POP/DROP on empty stack fail, failing ops change nothing); abstains on "
+        "out-of-range PEEK[a..b] bounds",
+        "DESIGN.md 4/C05",
+    ),
 }
 
 PENDING_REASON = "check not built yet in this revision of /verif (runtime monitor planned, see DESIGN.md section 4)"
